@@ -308,10 +308,13 @@ func (a *List) M__iadd__(other Object) (Object, error) {
 func (l *List) M__mul__(other Object) (Object, error) {
 	if b, ok := convertToInt(other); ok {
 		m := len(l.Items)
-		n := int(b) * m
-		if n < 0 {
-			n = 0
+		if b < 0 {
+			b = 0
 		}
+		if m != 0 && b > Int(GoIntMax/m) {
+			return nil, ExceptionNewf(MemoryError, "repeated sequence is too long")
+		}
+		n := int(b) * m
 		newList := NewListSized(n)
 		for i := 0; i < n; i += m {
 			copy(newList.Items[i:i+m], l.Items)
